@@ -218,6 +218,9 @@ def seed_protos(tier, which):
     elif which == "dupfam":
         for forms, outs in gg.gen_dup_family():
             yield (forms, outs), gg.make_model(forms, outs)
+    elif which == "orderfam":
+        for forms, outs in gg.gen_order_family():
+            yield (forms, outs), gg.make_model(forms, outs)
     elif which == "n1_opset_pairs":
         # the same seed at two opset versions, back to back through the same pass objects (both orders)
         for i, (forms, outs) in enumerate(gg.gen_models(1)):
@@ -313,9 +316,10 @@ def plan(tier):
     n1 = sum(1 for _ in gg.gen_models(1))
     n2 = sum(1 for _ in gg.gen_models(2))
     nd = sum(1 for _ in gg.gen_dup_family())
+    no = sum(1 for _ in gg.gen_order_family())
     if tier == "quick":
-        return [("special", 4, 2), ("n1", n1, 2), ("n1_opset_pairs", 2 * n1, 1), ("dupfam", nd, 1), ("n2", n2, 1)]
-    return [("special", 4, 3), ("n1", n1, 3), ("n1_opset_pairs", 2 * n1, 2), ("dupfam", nd, 2), ("n2", n2, 2)]
+        return [("special", 4, 2), ("n1", n1, 2), ("n1_opset_pairs", 2 * n1, 1), ("dupfam", nd, 1), ("orderfam", no, 1), ("n2", n2, 1)]
+    return [("special", 4, 3), ("n1", n1, 3), ("n1_opset_pairs", 2 * n1, 2), ("dupfam", nd, 2), ("orderfam", no, 2), ("n2", n2, 2)]
 
 
 def run_exploration(tier):
